@@ -414,3 +414,326 @@ theorem normalize2_spec (a : Mat) (s : Vec) (i : Nat) (hs0 : 0 ≤ vget s i)
         _ = pinv (vget s i) * a.get i j * a.get i j := by ring
 
 end SkNet.LinOp
+
+/-! ### scipy's invariant; specification predicates of the driver hold of the model -/
+
+namespace SkNet.Convert
+
+/-- scipy's invariant of a constructed CSR matrix (`Csr.WF` of Model/Basic.lean) gives the hypothesis of
+`get_weights_spec`: every stored column index of every row is inside the shape -/
+theorem inRange_of_wf (c : Csr Rat) (h : c.WF = true) : InRange c := by
+  unfold Csr.WF at h
+  simp only [Bool.and_eq_true, beq_iff_eq, List.all_eq_true, List.mem_range, decide_eq_true_eq,
+    Array.all_eq_true] at h
+  obtain ⟨⟨⟨⟨⟨hsz, h0⟩, hlast⟩, hdat⟩, hmono⟩, hidx⟩ := h
+  -- indptr is monotone up to the last row
+  have hchain : ∀ k i, i + k ≤ c.nRow → c.indptr.getD i 0 ≤ c.indptr.getD (i + k) 0 := by
+    intro k
+    induction k with
+    | zero => intro i _; exact Nat.le_refl _
+    | succ k ih =>
+      intro i hik
+      have h1 := ih i (by omega)
+      have h2 := hmono (i + k) (by omega)
+      have : i + (k + 1) = i + k + 1 := by omega
+      rw [this]
+      exact Nat.le_trans h1 h2
+  intro i e he
+  unfold Csr.row Csr.rowRange at he
+  obtain ⟨p, hp, rfl⟩ := List.mem_map.mp he
+  obtain ⟨t, ht, rfl⟩ := List.mem_map.mp hp
+  have ht' := List.mem_range.mp ht
+  by_cases hi : i < c.nRow
+  · have hle : c.indptr.getD (i + 1) 0 ≤ c.indices.size := by
+      have := hchain (c.nRow - (i + 1)) (i + 1) (by omega)
+      have e : i + 1 + (c.nRow - (i + 1)) = c.nRow := by omega
+      rw [e, hlast] at this
+      exact this
+    have hp' : t + c.indptr.getD i 0 < c.indices.size := by omega
+    have := hidx (t + c.indptr.getD i 0) hp'
+    simp only [Array.getD, hp', dite_true]
+    exact this
+  · -- past the last row `indptr[i+1]` is read outside the array: the row is empty
+    have : c.indptr.getD (i + 1) 0 = 0 := by
+      simp only [Array.getD]
+      have : ¬ i + 1 < c.indptr.size := by rw [hsz]; omega
+      simp [this]
+    rw [this] at ht'
+    omega
+
+end SkNet.Convert
+
+namespace SkNet.Convert
+
+theorem foldl_ge {β : Type} (f : Rat → β → Rat) (hf : ∀ m x, m ≤ f m x) (l : List β) (m0 : Rat) :
+    m0 ≤ l.foldl f m0 := by
+  induction l generalizing m0 with
+  | nil => exact le_refl _
+  | cons x xs ih => rw [List.foldl_cons]; exact le_trans (hf m0 x) (ih _)
+
+theorem matMaxAbs_nonneg (a : Mat) : 0 ≤ matMaxAbs a := by
+  unfold matMaxAbs
+  apply foldl_ge
+  intro m i
+  apply foldl_ge
+  intro m j
+  split
+  · rename_i h; exact le_of_lt h
+  · exact le_refl _
+
+/-- the specification evaluated on the implementation's `get_laplacian` holds of the model's output -/
+theorem laplacianSpec_model (tol : Rat) (ht : 0 ≤ tol) (a l : Mat) (h : getLaplacian a = .ok l) :
+    LaplacianSpec tol a l = true := by
+  obtain ⟨hsq, hr, hc, hget, hsum⟩ := getLaplacian_spec h
+  unfold LaplacianSpec rowAll colAll
+  have hsc : 0 ≤ matMaxAbs a * (a.nCol : Rat) := mul_nonneg (matMaxAbs_nonneg a) (by exact_mod_cast Nat.zero_le _)
+  simp only [Bool.and_eq_true, beq_iff_eq, List.all_eq_true, List.mem_range, Bool.or_eq_true]
+  refine ⟨⟨⟨hsq, hr⟩, by rw [hc, hsq]⟩, fun i hi => ⟨?_, fun j hj => ?_⟩⟩
+  · apply close_of_eq ht hsc
+    rw [← hsq]; exact hsum i hi
+  · by_cases e : i = j
+    · exact Or.inl e
+    · right
+      apply close_of_eq ht hsc
+      rw [hget i j hi (by rw [hsq]; exact hj)]
+      simp [e]
+
+/-- the specification evaluated on the implementation's `get_membership` holds of the model's output -/
+theorem membershipSpec_model (l : List Int) (m : Int) : MembershipSpec l (csrDense (membershipCsr l m)) = true := by
+  unfold MembershipSpec rowAll colAll
+  simp only [Bool.and_eq_true, beq_iff_eq, List.all_eq_true, List.mem_range]
+  refine ⟨rfl, fun i hi j hj => ?_⟩
+  have hi' : i < l.length := hi
+  have hj' : j < m.toNat := hj
+  rw [membership_dense l m i j hi' hj', List.getD_eq_getElem?_getD, List.getElem?_eq_getElem hi']
+  rfl
+
+end SkNet.Convert
+
+/-! ### neighbours and degrees of a canonical CSR matrix against the dense matrix -/
+
+namespace SkNet.Convert
+
+/-- scipy's canonical format without explicit zeros: in every row the stored columns increase strictly and no
+stored value is zero -/
+def Canonical (c : Csr Rat) : Prop :=
+  ∀ i, ((c.row i).map (·.1)).Pairwise (· < ·) ∧ ∀ e ∈ c.row i, e.2 ≠ 0
+
+theorem colSum_eq_zero_of_not_mem (es : List (Nat × Rat)) (j : Nat) (h : j ∉ es.map (·.1)) : colSum es j = 0 := by
+  induction es with
+  | nil => rfl
+  | cons e es ih =>
+    rw [colSum_cons]
+    have h1 : e.1 ≠ j := fun c => h (by simp [c])
+    have h2 : j ∉ es.map (·.1) := fun c => h (by simp at c ⊢; exact Or.inr c)
+    rw [ih h2]; simp [h1]
+
+/-- with distinct stored columns and no stored zero, the dense entry is non-zero exactly at the stored columns -/
+theorem colSum_ne_zero_iff (es : List (Nat × Rat)) (hs : (es.map (·.1)).Pairwise (· < ·))
+    (hv : ∀ e ∈ es, e.2 ≠ 0) (j : Nat) : colSum es j ≠ 0 ↔ j ∈ es.map (·.1) := by
+  induction es with
+  | nil => simp
+  | cons e es ih =>
+    rw [List.map_cons, List.pairwise_cons] at hs
+    rw [colSum_cons]
+    have ih' := ih hs.2 (fun x hx => hv x (List.mem_cons_of_mem _ hx))
+    by_cases h1 : e.1 = j
+    · have hnot : j ∉ es.map (·.1) := by
+        intro c
+        have := hs.1 j c
+        omega
+      rw [colSum_eq_zero_of_not_mem es j hnot]
+      simp [h1, hv e (List.mem_cons_self ..)]
+    · simp only [h1, if_false, zero_add, List.map_cons, List.mem_cons]
+      rw [ih']
+      constructor
+      · intro h; exact Or.inr h
+      · rintro (h | h)
+        · exact absurd h.symm h1
+        · exact h
+
+theorem sortNat_of_sorted (l : List Nat) (h : l.Pairwise (· < ·)) : sortNat l = l := by
+  induction l with
+  | nil => rfl
+  | cons a t ih =>
+    rw [List.pairwise_cons] at h
+    unfold sortNat
+    rw [List.foldr_cons]
+    have : List.foldr insertNat [] t = t := ih h.2
+    rw [this]
+    cases t with
+    | nil => rfl
+    | cons b t' =>
+      unfold insertNat
+      have : a ≤ b := Nat.le_of_lt (h.1 b (List.mem_cons_self ..))
+      simp [this]
+
+/-- two strictly increasing lists with the same elements are equal -/
+theorem pairwise_lt_ext : ∀ (l1 l2 : List Nat), l1.Pairwise (· < ·) → l2.Pairwise (· < ·) →
+    (∀ x, x ∈ l1 ↔ x ∈ l2) → l1 = l2
+  | [], [], _, _, _ => rfl
+  | [], b :: t, _, _, hm => absurd ((hm b).mpr (List.mem_cons_self ..)) (by simp)
+  | a :: s, [], _, _, hm => absurd ((hm a).mp (List.mem_cons_self ..)) (by simp)
+  | a :: s, b :: t, h1, h2, hm => by
+    rw [List.pairwise_cons] at h1 h2
+    have hab : a = b := by
+      rcases List.mem_cons.mp ((hm a).mp (List.mem_cons_self ..)) with h | h
+      · exact h
+      · rcases List.mem_cons.mp ((hm b).mpr (List.mem_cons_self ..)) with h' | h'
+        · exact h'.symm
+        · have := h2.1 a h
+          have := h1.1 b h'
+          omega
+    subst hab
+    congr 1
+    apply pairwise_lt_ext s t h1.2 h2.2
+    intro x
+    constructor
+    · intro hx
+      rcases List.mem_cons.mp ((hm x).mp (List.mem_cons_of_mem _ hx)) with h | h
+      · have := h1.1 x hx; omega
+      · exact h
+    · intro hx
+      rcases List.mem_cons.mp ((hm x).mpr (List.mem_cons_of_mem _ hx)) with h | h
+      · have := h2.1 x hx; omega
+      · exact h
+
+/-- a strictly increasing list of numbers below `n` is the list of the numbers below `n` that it contains -/
+theorem filter_range_eq_of_sorted (n : Nat) (l : List Nat) (hs : l.Pairwise (· < ·)) (hb : ∀ x ∈ l, x < n) :
+    (List.range n).filter (fun j => decide (j ∈ l)) = l := by
+  apply pairwise_lt_ext _ _ ((List.pairwise_lt_range (n := n)).sublist List.filter_sublist) hs
+  intro x
+  simp only [List.mem_filter, List.mem_range, decide_eq_true_eq]
+  exact ⟨fun h => h.2, fun h => ⟨hb x h, h⟩⟩
+
+/-- **get_neighbors against the dense matrix** (canonical CSR): the neighbours of a row are exactly the columns of its
+non-zero entries, in increasing order — `NeighborsSpec`, the predicate the driver evaluates on the implementation's
+output, holds of the model's output -/
+theorem neighborsSpec_model (c : Csr Rat) (hr : InRange c) (hc : Canonical c) (node : Nat) (hn : node < c.nRow) :
+    NeighborsSpec (csrDense c) node ((c.row node).map (·.1)) = true := by
+  unfold NeighborsSpec
+  rw [sortNat_of_sorted _ (hc node).1]
+  simp only [beq_iff_eq]
+  rw [← filter_range_eq_of_sorted c.nCol ((c.row node).map (·.1)) (hc node).1
+    (fun x hx => by obtain ⟨e, he, rfl⟩ := List.mem_map.mp hx; exact hr node e he)]
+  apply List.filter_congr
+  intro j hj
+  have hj' : j < c.nCol := List.mem_range.mp hj
+  show decide _ = (_ != _)
+  rw [get_csrDense c hn hj']
+  have := colSum_ne_zero_iff (c.row node) (hc node).1 (hc node).2 j
+  by_cases hm : j ∈ (c.row node).map (·.1)
+  · simp [hm, this.mpr hm]
+  · have : colSum (c.row node) j = 0 := by
+      by_contra hne; exact hm (this.mp hne)
+    simp [hm, this]
+
+/-- **get_degrees against the dense matrix** (canonical CSR): the number of non-zero entries of every row -/
+theorem degreesSpec_model (c : Csr Rat) (hr : InRange c) (hc : Canonical c) :
+    DegreesSpec (csrDense c) (getDegrees c false) = true := by
+  unfold DegreesSpec
+  simp only [beq_iff_eq]
+  rw [(getDegrees_spec c).1]
+  show tab c.nRow _ = tab c.nRow _
+  apply tab_congr
+  intro i hi
+  have h := neighborsSpec_model c hr hc i hi
+  unfold NeighborsSpec at h
+  rw [sortNat_of_sorted _ (hc i).1] at h
+  simp only [beq_iff_eq] at h
+  show (c.row i).length = ((List.range (csrDense c).nCol).filter fun j => (csrDense c).get i j != 0).length
+  rw [← h]; simp
+
+end SkNet.Convert
+
+namespace SkNet.Convert
+
+theorem filter_col_length_le_one (es : List (Nat × Rat)) (hs : (es.map (·.1)).Pairwise (· < ·)) (j : Nat) :
+    (es.filter fun e => e.1 == j).length ≤ 1 := by
+  induction es with
+  | nil => simp
+  | cons e es ih =>
+    rw [List.map_cons, List.pairwise_cons] at hs
+    by_cases h : e.1 = j
+    · have hnone : es.filter (fun e => e.1 == j) = [] := by
+        apply List.filter_eq_nil_iff.mpr
+        intro x hx
+        have := hs.1 x.1 (List.mem_map.mpr ⟨x, hx, rfl⟩)
+        simp; omega
+      simp [List.filter_cons, h, hnone]
+    · have := ih hs.2
+      simp [List.filter_cons, h, this]
+
+theorem pairwise_flatMap_range (n : Nat) (L : Nat → List Nat) (hL : ∀ i, ∀ x ∈ L i, x = i)
+    (h1 : ∀ i, (L i).length ≤ 1) : ((List.range n).flatMap L).Pairwise (· < ·) := by
+  induction n with
+  | zero => simp
+  | succ n ih =>
+    rw [List.range_succ, List.flatMap_append]
+    simp only [List.flatMap_cons, List.flatMap_nil, List.append_nil]
+    apply List.pairwise_append.mpr
+    refine ⟨ih, ?_, ?_⟩
+    · have := h1 n
+      match hl : L n with
+      | [] => simp
+      | [a] => simp
+      | a :: b :: t => rw [hl] at this; simp at this
+    · intro a ha b hb
+      obtain ⟨i, hi, hai⟩ := List.mem_flatMap.mp ha
+      have e1 := hL i a hai
+      have e2 := hL n b hb
+      have := List.mem_range.mp hi
+      omega
+
+theorem canonical_transpose (c : Csr Rat) (hc : Canonical c) : Canonical (csrTranspose c) := by
+  intro j
+  by_cases hj : j < c.nCol
+  · rw [csrTranspose_row c j hj]
+    unfold transposedRow
+    constructor
+    · rw [List.map_flatMap]
+      apply pairwise_flatMap_range
+      · intro i x hx
+        obtain ⟨e, _, rfl⟩ := List.mem_map.mp hx
+        obtain ⟨e', _, rfl⟩ := List.mem_map.mp ‹e ∈ _›
+        rfl
+      · intro i
+        simp only [List.length_map]
+        exact filter_col_length_le_one (c.row i) (hc i).1 j
+    · intro e he
+      obtain ⟨i, _, he⟩ := List.mem_flatMap.mp he
+      obtain ⟨x, hx, rfl⟩ := List.mem_map.mp he
+      exact (hc i).2 x (List.mem_filter.mp hx).1
+  · rw [csrTranspose_row_ge c j (Nat.le_of_not_lt hj)]
+    exact ⟨by simp, by simp⟩
+
+theorem neighborsSpec_congr {d1 d2 : Mat} (h : Mat.Eqv d1 d2) (node : Nat) (out : List Nat) :
+    NeighborsSpec d1 node out = NeighborsSpec d2 node out := by
+  unfold NeighborsSpec
+  rw [h.nCol]
+  congr 2
+  funext j
+  rw [h.get]
+
+theorem degreesSpec_congr {d1 d2 : Mat} (h : Mat.Eqv d1 d2) (out : List Nat) :
+    DegreesSpec d1 out = DegreesSpec d2 out := by
+  unfold DegreesSpec
+  rw [h.nRow, h.nCol]
+  congr 2
+  funext i
+  congr 2
+  funext j
+  rw [h.get]
+
+/-- **get_neighbors / get_degrees with `transpose=True`** against the transposed dense matrix (canonical CSR) -/
+theorem neighborsSpec_transpose_model (c : Csr Rat) (hc : Canonical c) (node : Nat) (hn : node < c.nCol) :
+    NeighborsSpec (csrDense c).transpose node (((csrTranspose c).row node).map (·.1)) = true := by
+  rw [← neighborsSpec_congr (csrTranspose_dense c)]
+  exact neighborsSpec_model (csrTranspose c) (csrTranspose_inRange c) (canonical_transpose c hc) node hn
+
+theorem degreesSpec_transpose_model (c : Csr Rat) (hc : Canonical c) :
+    DegreesSpec (csrDense c).transpose (getDegrees c true) = true := by
+  rw [← degreesSpec_congr (csrTranspose_dense c)]
+  exact degreesSpec_model (csrTranspose c) (csrTranspose_inRange c) (canonical_transpose c hc)
+
+end SkNet.Convert
